@@ -22,6 +22,10 @@ type hP2 struct{ ID int }
 type hP3 struct{ ID int }
 type hP4 struct{ ID int }
 
+// hList is a defined type whose underlying type is the unnamed []int (hTSlice):
+// Go assignability relates them although they are different types.
+type hList []int
+
 func (hP2) hIsI() {}
 
 // hI is implemented by hP2 only.
@@ -34,9 +38,11 @@ const (
 	hTI  = 3
 	hTP3 = 4
 	hTP4 = 5
+	hTList  = 6 // hList
+	hTSlice = 7 // []int
 )
 
-var hTypeNames = []string{"P0", "P1", "P2", "I", "P3", "P4"}
+var hTypeNames = []string{"P0", "P1", "P2", "I", "P3", "P4", "List", "[]int"}
 
 func hType(t int) reflect.Type {
 	switch t {
@@ -50,6 +56,10 @@ func hType(t int) reflect.Type {
 		return reflect.TypeOf(hP3{})
 	case hTP4:
 		return reflect.TypeOf(hP4{})
+	case hTList:
+		return reflect.TypeOf(hList(nil))
+	case hTSlice:
+		return reflect.TypeOf([]int(nil))
 	}
 	return reflect.TypeOf((*hI)(nil)).Elem()
 }
@@ -65,6 +75,10 @@ func hMk(t int, id int) interface{} {
 		return hP3{id}
 	case hTP4:
 		return hP4{id}
+	case hTList:
+		return hList{id}
+	case hTSlice:
+		return []int{id}
 	}
 	return hP2{id}
 }
@@ -82,6 +96,14 @@ func hUnpack(v interface{}) (int, int) {
 		return hTP3, x.ID
 	case hP4:
 		return hTP4, x.ID
+	case hList:
+		if len(x) == 1 {
+			return hTList, x[0]
+		}
+	case []int:
+		if len(x) == 1 {
+			return hTSlice, x[0]
+		}
 	}
 	return -1, 0
 }
@@ -183,6 +205,9 @@ type hWorld struct {
 	Errs []error // Errs[k]: the distinct error object converter/target k returns when it fails
 
 	Funcs []*Func // built functions, index = spec ID
+
+	// NilPtrOnFail: a failing *struct-form function returns a nil pointer next to its error
+	NilPtrOnFail bool
 
 	// FailFn, when set, overrides the specs' Fails bit at execution time
 	// (lets a history make a function fail in one call and succeed in the next).
@@ -399,9 +424,13 @@ func (w *hWorld) hBuild(f hFuncSpec, opts ...Arg) (*Func, error) {
 		if err != nil {
 			return nil, err
 		}
-		out, err := NewValueSet(ovs)
-		if err != nil {
-			return nil, err
+		var out *ValueSet
+		if len(ovs) > 0 {
+			// (an empty list would give a marker-only struct result; "no outputs" is a nil set)
+			out, err = NewValueSet(ovs)
+			if err != nil {
+				return nil, err
+			}
 		}
 		return BuildFunc(in, out, func(in, out *ValueSet) error {
 			vals := in.Values()
@@ -511,7 +540,11 @@ func (w *hWorld) hBuild(f hFuncSpec, opts ...Arg) (*Func, error) {
 					}
 				}
 				if f.Form == hFormPtrStruct {
-					res = append(res, sp)
+					if err != nil && w.NilPtrOnFail {
+						res = append(res, reflect.Zero(reflect.PtrTo(outS)))
+					} else {
+						res = append(res, sp)
+					}
 				} else {
 					res = append(res, sp.Elem())
 				}
@@ -559,6 +592,36 @@ func (w *hWorld) hBuildAll() ([]Arg, bool) {
 	return args, true
 }
 
+// hBuildAllAsDefaults builds the converters first and then the target with every
+// value and converter attached as a DEFAULT option at construction; calls then
+// need no options at all.
+func (w *hWorld) hBuildAllAsDefaults() bool {
+	n := len(w.Convs) + 1
+	w.Errs = make([]error, n)
+	w.Funcs = make([]*Func, n)
+	for k := 0; k < n; k++ {
+		w.Errs[k] = fmt.Errorf("harness error of function %d", k)
+	}
+	var opts []Arg
+	for _, v := range w.Vals {
+		opts = append(opts, NamedSubtype(v.L.Name, hMk(v.L.T, v.ID), v.L.Sub))
+	}
+	for _, c := range w.Convs {
+		cf, err := w.hBuild(c)
+		if err != nil {
+			return false
+		}
+		w.Funcs[c.ID] = cf
+		opts = append(opts, ConverterFunc(cf))
+	}
+	t, err := w.hBuild(w.Target, opts...)
+	if err != nil {
+		return false
+	}
+	w.Funcs[0] = t
+	return true
+}
+
 // ---- symbolic label generation ------------------------------------------
 
 // Families: which label dimensions vary.
@@ -570,14 +633,15 @@ func (w *hWorld) hBuildAll() ([]Arg, bool) {
 //	4 F-iface names {"",a}, types {P0,P2,I}, no subtypes
 //	5 F-chain types {P0,P1,P2,P3,P4} (interchangeable: canonical first-use order is assumed), no names, no subtypes
 //	6 F-tsub  types {P0,P1,P2} (canonical order), no names, subtypes {"",s,t}
+//	8 F-assign names {"",a}, types {P0, hList (defined, underlying []int), []int}: assignable but different types
 //	7 F-nsub  names {"",a,b}, types {P0,P1}, subtypes {"",s} on type P0 only... (= F-full with canonical type order)
-var hNamePool = [][]string{{""}, {"", "a", "b"}, {"", "a"}, {"", "a", "b"}, {"", "a"}, {""}, {""}, {"", "a", "b"}}
-var hTypePool = [][]int{{hTP0, hTP1, hTP2, hTI}, {hTP0, hTP1}, {hTP0}, {hTP0, hTP1}, {hTP0, hTP2, hTI}, {hTP0, hTP1, hTP2, hTP3, hTP4}, {hTP0, hTP1, hTP2}, {hTP0, hTP1}}
-var hSubPool = [][]string{{""}, {""}, {"", "s", "S"}, {"", "s"}, {""}, {""}, {"", "s", "S"}, {"", "s"}}
+var hNamePool = [][]string{{""}, {"", "a", "b"}, {"", "a"}, {"", "a", "b"}, {"", "a"}, {""}, {""}, {"", "a", "b"}, {"", "a"}}
+var hTypePool = [][]int{{hTP0, hTP1, hTP2, hTI}, {hTP0, hTP1}, {hTP0}, {hTP0, hTP1}, {hTP0, hTP2, hTI}, {hTP0, hTP1, hTP2, hTP3, hTP4}, {hTP0, hTP1, hTP2}, {hTP0, hTP1}, {hTP0, hTList, hTSlice}}
+var hSubPool = [][]string{{""}, {""}, {"", "s", "S"}, {"", "s"}, {""}, {""}, {"", "s", "S"}, {"", "s"}, {""}}
 
 // families whose types are interchangeable plain structs: labels are drawn in
 // canonical (first-use) order so that the solver prunes relabelled duplicates
-var hCanonTypes = []bool{false, false, false, false, false, true, true, true}
+var hCanonTypes = []bool{false, false, false, false, false, true, true, true, false}
 
 // hMaxType is the highest pool position used so far in the world being drawn.
 var hMaxType = -1
